@@ -7,7 +7,7 @@ CONSTANTS
   Versions <- GateVersions
   MaxPert = 2
   EmitAt = 1000
-  Scenarios = {1, 2, 3, 4, 5, 6}
+  Scenarios = {1, 2, 3, 4, 5, 6, 7}
 INIT GInit
 NEXT GNextC
 INVARIANT StateIsFunctionOfHistory
